@@ -38,7 +38,12 @@ TieLosers(i) == { k \in MaskedIn(i) : PosOf(Ev(i).s, k) # PickOf(i, k) }
 C04(i) ==
   LET e == Ev(i) IN
   (IF e.ts.type # LAST /\ ~e.pl THEN
-     { <<"C04.mask_eq_legal", e.ts.obs.action_mask = Mask(e.s)>> } ELSE {})
+     LET m == e.ts.obs.action_mask  r == Mask(e.s) IN
+     { <<"C04.mask_eq_legal", m = r>>,
+       \* pinpointing: rows of agents that still have nodes to connect / rows of agents that are finished
+       <<"C04.mask_eq_legal.unfinished_rows", \A k \in Agents : ~Finished(e.s, k) => m[k + 1] = r[k + 1]>>,
+       <<"C04.mask_eq_legal.finished_rows_empty", \A k \in Agents : Finished(e.s, k) => m[k + 1] = r[k + 1]>> }
+   ELSE {})
   \cup
   (IF IsStep(i) /\ ~e.pl THEN
      LET s == Pre(i)  t == e.s IN
@@ -56,7 +61,8 @@ C04(i) ==
       ELSE {})
      \cup
      { <<"C04.reward_follows_mask",
-           \E x \in 0..Cardinality(TieLosers(i)) : NearI(e.ts.reward.q[1], RewardLo(i) + x, 4)>> }
+           LET lo == RewardLo(i)  n == Cardinality(TieLosers(i)) IN
+           \E x \in 0..n : NearI(e.ts.reward.q[1], lo + x, 4)>> }
    ELSE {})
 
 (* ---------------- C06 ---------------- *)
